@@ -108,7 +108,7 @@ PROPS = {
     },
     'C05': {
         'modules': ['C05', 'TieWrite', 'TieRead', 'TieRun', 'TieCodec'],
-        'families': [('ep:codec', 2500, 80000), ('ep:sizes', 300, 5000), ('ep:pipe', 150, 3000)],
+        'families': [('fs', 500, 15000), ('ep:codec', 2500, 80000), ('ep:sizes', 300, 5000), ('ep:pipe', 150, 3000)],
         'rule': 'inbound streams under many segmentations (1-byte, small, large chunks, WouldBlock between segments), every (pre-read, rest) split '
                 'the generator picks, six read-buffer sizes; each case compared with the one-shot decoder of the whole stream',
         'assumptions': ['the outbound side accepts what it is offered (the property is about how the INBOUND stream is cut); '
@@ -191,7 +191,7 @@ PROPS = {
     },
     'C10': {
         'modules': ['C10', 'TieWrite', 'TieRead', 'TieRun', 'TieCodec', 'TieExamples'],
-        'families': [('ep:slotrace', 1, 1), ('corpus:defects', 0, 0), ('ep:backpressure', 2000, 60000), ('ep:sizes', 300, 5000), ('ep:mixed', 500, 20000)],
+        'families': [('fs', 500, 15000), ('ep:slotrace', 1, 1), ('corpus:defects', 0, 0), ('ep:backpressure', 2000, 60000), ('ep:sizes', 300, 5000), ('ep:mixed', 500, 20000)],
         'rule': 'message sequences x per-call transport write outcomes (accept k of n for many k, WouldBlock, repeated) x flush outcomes '
                 'x write_buffer_size',
         'assumptions': [],
@@ -204,7 +204,7 @@ PROPS = {
     },
     'C06': {
         'modules': ['C06', 'C06Global', 'TieWrite', 'TieRead', 'TieRun', 'TieCodec'],
-        'families': [('corpus:limits', 0, 0), ('ep:limits', 1500, 40000), ('ep:codec', 500, 10000)],
+        'families': [('fs', 800, 20000), ('corpus:limits', 0, 0), ('ep:limits', 1500, 40000), ('ep:codec', 500, 10000)],
         'rule': 'frame/fragment size patterns around the configured limits (limit-1, limit, limit+1; limits 0,1,5,10,125,126,300), '
                 'headers announcing up to 2^64-1 bytes with nothing following, every read-buffer size; read-only cases are also '
                 'checked against the one-shot RFC decoder with the same limits',
@@ -249,7 +249,7 @@ PROPS = {
     },
     'C14': {
         'modules': ['C14', 'C14Global', 'TieWrite', 'TieCodec', 'TieExamples'],
-        'families': [('ep:slotrace', 1, 1), ('corpus:defects', 0, 0), ('ep:backpressure', 2000, 60000), ('ep:tinybuf', 600, 15000), ('ep:wbound', 1, 1), ('ep:mixed', 500, 10000)],
+        'families': [('fs', 500, 15000), ('ep:slotrace', 1, 1), ('corpus:defects', 0, 0), ('ep:backpressure', 2000, 60000), ('ep:tinybuf', 600, 15000), ('ep:wbound', 1, 1), ('ep:mixed', 500, 10000)],
         'rule': '(write_buffer_size, max_write_buffer_size) pairs incl. 0 and adjacent values, message size sequences, transport refusal '
                 'windows, ping floods while blocked',
         'assumptions': ['max_write_buffer_size holds the largest single frame used (property quantifier)'],
@@ -292,7 +292,7 @@ PROPS = {
     },
     'C19': {
         'miri': 'mirimask',
-        'families': [('pure:mask', 4, 40), ('pure:fformat', 200, 4000), ('ep:maskpaths', 1, 1)],
+        'families': [('fs', 500, 15000), ('pure:mask', 4, 40), ('pure:fformat', 200, 4000), ('ep:maskpaths', 1, 1)],
         'rule': 'payload lengths 0..=67 x 8 alignments x keys sweeping every value of every key byte through the real '
                 'apply_mask (hook) inside canary-filled buffers; frame pairs encoded behind each other in the shared write '
                 'buffer; server reads of masked frames / client writes at every (length, offset)',
